@@ -7,11 +7,13 @@
 (***************************************************************************)
 EXTENDS AccelScan
 
-CONSTANT Deep        \* TRUE: all 24 configurations, and the second root name ranges over all leaves and small directories
+CONSTANT Deep        \* TRUE: all 24 configurations, and the second root name ranges over all leaves
 
 AllCfgs == [sym : {"portable", "ignore", "posix"}, perm : {"portable", "manual"}, pres : BOOLEAN, decomp : BOOLEAN]
-\* quick: every symlink x permissions mode, with the two behaviour flags varied together
-Cfgs == IF Deep THEN AllCfgs ELSE {c \in AllCfgs : c.pres # c.decomp}
+\* quick: every symlink x permissions mode on a preserving, non-decomposing filesystem, plus a
+\* non-preserving, decomposing one in portable permissions mode under two symlink modes
+Cfgs == IF Deep THEN AllCfgs
+        ELSE {c \in AllCfgs : (c.pres /\ ~c.decomp) \/ (~c.pres /\ c.decomp /\ c.perm = "portable" /\ c.sym # "ignore")}
 
 \* ---- archetypes (nfc: "same" | "other", resolved when placed under a name) ----
 NameBase == [u8 |-> TRUE, tmp |-> FALSE, nfc |-> "same"]
@@ -44,7 +46,7 @@ Dirs1 == {DirA(v, FALSE, TRUE, TRUE, c) : v \in DirVerdicts, c \in OneKid(Leaves
          \cup {DirA(v, s[1], s[2], s[3], [n \in {"a"} |-> Place("a", Plain @@ [ig |-> "nom", ct |-> FALSE])]) :
                  v \in DirVerdicts, s \in {<<TRUE, TRUE, TRUE>>, <<FALSE, FALSE, TRUE>>, <<FALSE, TRUE, FALSE>>}}
 Level1 == Leaves \cup Dirs1
-SideB == IF Deep THEN Leaves \cup Dirs2 ELSE {[Plain EXCEPT !.u8 = FALSE] @@ [ig |-> "nom", ct |-> FALSE]}
+SideB == IF Deep THEN Leaves ELSE {[Plain EXCEPT !.u8 = FALSE] @@ [ig |-> "nom", ct |-> FALSE]}
 RootDirs == {[t |-> "dir", ino |-> "i0", xdev |-> FALSE, rd |-> TRUE, ls |-> TRUE, c |-> c] :
                c \in {<<>>} \cup {[n \in {"a"} |-> Place("a", x)] : x \in Level1}
                      \cup {[n \in {"b"} |-> Place("b", y)] : y \in SideB}
